@@ -497,7 +497,11 @@ macro_rules! assert_vfs_readlink {
         match $vfs.readlink(&link) {
             Ok(x) => {
                 if x.to_string().unwrap() != $target.to_string().unwrap() {
-                    panic_msg!("assert_vfs_readlink!", "link target doesn't equal given path", &x);
+                    panic_msg!(
+                        "assert_vfs_readlink!",
+                        format!("link target doesn't equal given path\n  actual: {:?}", &x),
+                        &link
+                    );
                 }
             },
             _ => panic_msg!("assert_vfs_readlink!", "failed while reading link", &link),
@@ -533,7 +537,11 @@ macro_rules! assert_vfs_readlink_abs {
         match $vfs.readlink_abs(&link) {
             Ok(x) => {
                 if target != x {
-                    panic_msg!("assert_vfs_readlink_abs!", "link target doesn't equal given path", &x);
+                    panic_msg!(
+                        "assert_vfs_readlink_abs!",
+                        format!("link target doesn't equal given path\n  actual: {:?}", &x),
+                        &link
+                    );
                 }
             },
             _ => panic_msg!("assert_vfs_readlink_abs!", "failed while reading link", &link),
